@@ -69,6 +69,10 @@ pub fn url_safe_encode(b: Vec<u8>) -> (r: String) ensures r@ == b64(b@) { unimpl
 /// STANDARD.encode: the other base64 alphabet ('+', '/'): a different function of the bytes, about which nothing is
 /// assumed -- in particular not that URL_SAFE.decode undoes it
 pub uninterp spec fn b64_std(b: Seq<u8>) -> Seq<char>;
+pub uninterp spec fn b64_std_dec(s: Seq<u8>) -> Option<Seq<u8>>;
+#[verifier::external_body]
+pub fn standard_decode(s: &[u8]) -> (r: Result<Vec<u8>, B64Err>)
+    ensures (r is Ok) == (b64_std_dec(s@) is Some), r is Ok ==> r->Ok_0@ == b64_std_dec(s@)->Some_0 { unimplemented!() }
 #[verifier::external_body]
 pub fn standard_encode(b: Vec<u8>) -> (r: String) ensures r@ == b64_std(b@) { unimplemented!() }
 #[verifier::external_body]
